@@ -77,6 +77,7 @@ type ReplayFile struct {
 	OrigLen  int            `json:"original_tape_len"`
 	Shrinks  int            `json:"shrink_reruns"`
 	Scenario map[string]any `json:"scenario,omitempty"`
+	Choices  []string       `json:"non_default_choices"`
 	Trace    []string       `json:"trace"`
 }
 
@@ -233,17 +234,21 @@ func writeReplay(t *testing.T, prop *Property, run uint64, r *RunResult) string 
 		vals, tries = Shrink(t, prop, *fTier, vals, r.Viol.Sig, 600)
 	}
 	// re-record the minimised run (with its log) so the file replays strictly
-	fin := RunOne(t, prop, *fTier, NewReplayTape(vals), true)
+	ftp := NewReplayTape(vals)
+	ftp.KeepLabels = true
+	fin := RunOne(t, prop, *fTier, ftp, true)
 	if fin.Viol == nil || fin.Viol.Sig != r.Viol.Sig {
+		ftp = NewReplayTape(r.TapeV)
+		ftp.KeepLabels = true
 		// shrinking result did not reproduce (should not happen): fall back to the original
-		fin = RunOne(t, prop, *fTier, NewReplayTape(r.TapeV), true)
+		fin = RunOne(t, prop, *fTier, ftp, true)
 		if fin.Viol == nil {
 			return ""
 		}
 	}
 	rf := ReplayFile{Property: prop.ID, Tier: *fTier, Seed: *fSeed, Run: run, Sig: fin.Viol.Sig, Detail: fin.Viol.Detail,
 		Hash: fmt.Sprintf("%016x", fin.Hash), TapeN: fin.TapeN, TapeV: fin.TapeV, OrigLen: len(r.TapeV), Shrinks: tries,
-		Scenario: fin.Sample, Trace: fin.Log}
+		Scenario: fin.Sample, Trace: fin.Log, Choices: ftp.NonZero()}
 	dir := *fRepDir
 	if dir == "" {
 		dir = os.TempDir()
